@@ -41,7 +41,7 @@ Live(o, wr)  == { p \in Pids(wr) : KSt(o, p) = "run" }
 AllTracked(o) == UNION { Pids(o.w[i]) : i \in WIdx(o) }
 Decode(ws)   == IF ws % 128 # 0 THEN -(ws % 128) ELSE (ws \div 256) % 256
 
-EnvKinds   == {"tick", "req", "die", "extkill", "dsig", "fork", "probe", "end", "boot", "spawnfault", "sockev"}
+EnvKinds   == {"tick", "req", "die", "extkill", "dsig", "fork", "probe", "end", "boot", "spawnfault", "sockev", "badspawn"}
 InjKinds   == {"die", "extkill", "sigdeath", "fork"}     \* what the environment may do in the middle of a callback
 StimKinds  == {"die", "extkill", "sigdeath", "dsig", "fork", "boot", "spawnfail", "block", "exc"}
 ROCmds     == {"status", "list", "numprocesses", "numwatchers", "options", "stats", "dstats", "get",
@@ -70,6 +70,7 @@ GhostInit ==
     passFresh|-> FALSE,        \* the running pass began after the last stimulus
     passClean|-> FALSE,
     owner    |-> <<>>,         \* pid -> lower-cased watcher name ("" for a worker's child)
+    badw     |-> {},           \* watchers (lower-cased names) whose every spawn fails: the environment said so ("badspawn")
     bornT    |-> <<>>,         \* pid -> time of its spawn line (ms), -1 unknown
     passT0   |-> 0,            \* time at which the running periodic pass began
     released |-> {},           \* pids released by rm nostop
@@ -275,6 +276,7 @@ Upd(g, o, ln, o2) ==
                              ELSE IF stim \/ (ln.k = "req" /\ ln.q.cmd \in {"kill", "signal"}) THEN FALSE ELSE @,
                !.owner = owner1,
                !.bornT = bornT1,
+               !.badw = IF ln.k = "badspawn" THEN @ \cup {ln.w} ELSE @,
                !.passT0 = IF PassStart(o, o2) THEN ln.t ELSE @,
                !.released = IF rel /\ g.op.slot = "arbiter_rm_watcher" /\ g.op.nostop
                             THEN @ \cup { p \in 1..NK(o2) : OwnerOf(g, p) = g.op.lname /\ KSt(o2, p) # "reaped" }
@@ -366,7 +368,7 @@ C01_range(o2) == \A i \in WIdx(o2) : o2.w[i].np >= 0 /\ (o2.w[i].sing => o2.w[i]
 C01_converge(g2, o2) ==
    Quiet(o2) /\ g2.passes >= 2 /\ ~g2.blocked =>
       \A i \in WIdx(o2) : LET wr == o2.w[i] IN
-         (wr.st = "active" /\ wr.resp /\ ~wr.od /\ wr.mage = 0 /\ Stopping(wr) = {})
+         (wr.st = "active" /\ wr.resp /\ ~wr.od /\ wr.mage = 0 /\ Stopping(wr) = {} /\ wr.ln \notin g2.badw)
             => Cardinality(Live(o2, wr)) = wr.np
 \* the periodic check is there at all: with a check delay configured, no two check delays pass with the slot free
 \* and no check
